@@ -63,92 +63,57 @@ Qed.
 
 (* one participant-level operation lifted to the factory *)
 Lemma with_part_step : forall f ph k f' r,
-    preserves k -> finv f -> with_part f ph k = (f', r) -> any_ovf f' = false ->
-    finv f' /\ r <> RPanic /\ any_ovf f = false.
+    preserves k -> finv f -> with_part f ph k = (f', r) ->
+    finv f' /\ r <> RPanic /\ any_ovf f' = any_ovf f.
 Proof.
-  intros f ph k f' r Hk Hinv Hw Ho. unfold with_part in Hw.
+  intros f ph k f' r Hk Hinv Hw. unfold with_part in Hw.
   destruct (find_part f ph) as [p|] eqn:Hf.
-  2:{ inversion Hw; subst. split; [exact Hinv|split; [discriminate|exact Ho]]. }
+  2:{ inversion Hw; subst. split; [exact Hinv|split; [discriminate|reflexivity]]. }
   destruct Hinv as (Hn & Hp & Hd & Hi).
   destruct (k p) as [p' r'] eqn:Hkp. inversion Hw; subst; clear Hw.
   unfold find_part in Hf. destruct (find_first_some _ _ _ Hf) as [Hin Hisp].
-  unfold any_ovf in Ho. cbn [f_ovf f_parts set_parts] in Ho. apply orb_false_iff in Ho. destruct Ho as [Hfo Hpo].
-  assert (Hp'o : pa_ovf p' = false).
-  { eapply existsb_false_in; [exact Hpo|]. eapply in_upd_first_new; eauto. }
   rewrite Forall_forall in Hp. specialize (Hk p (Hp p Hin)). rewrite Hkp in Hk. cbn [fst snd] in Hk.
-  destruct (Hk Hp'o) as (Hi' & Hh' & Hpo' & Hr).
-  split; [|split; auto].
-  - unfold finv. cbn [f_next f_parts set_parts]. repeat split; try tauto.
-    + apply forall_upd_first_const; auto. apply Forall_forall; auto.
-    + rewrite (upd_first_map_found pa_h _ _ p p' Hf Hh'). auto.
-    + apply forall_upd_first_const; auto. rewrite Forall_forall in Hi. rewrite Hh'. apply Hi; auto.
-  - unfold any_ovf. rewrite Hfo. cbn. apply existsb_false_all. intros q Hq.
-    destruct (in_upd_first_cases (is_part ph) (fun _ => p') _ p q Hf Hq) as [->|Hq']; auto.
-    eapply existsb_false_in; eauto.
+  destruct Hk as (Hi' & Hh' & Hr).
+  split; [|split; [auto|reflexivity]].
+  unfold finv. cbn [f_next f_parts set_parts]. repeat split; try tauto.
+  - apply forall_upd_first_const; auto. apply Forall_forall; auto.
+  - rewrite (upd_first_map_found pa_h _ _ p p' Hf Hh'). auto.
+  - apply forall_upd_first_const; auto. rewrite Forall_forall in Hi. rewrite Hh'. apply Hi; auto.
 Qed.
 
-Lemma fstep_inv : forall pr f o f' r,
-    finv f -> fstep pr f o = (f', r) -> any_ovf f' = false ->
-    finv f' /\ r <> RPanic /\ any_ovf f = false.
+(* the participant-level operation behind a mail *)
+Definition part_op (pr : profile) (o : fop) : option (handle * (part -> part * ret)) :=
+  match o with
+  | FSetFactoryQos _ | FCreatePart _ | FDeletePart _ => None
+  | FCreateGroup sd ph q => Some (ph, fun p => create_group pr sd p q)
+  | FDeleteGroup sd ph parent gh => Some (ph, fun p => delete_group sd p parent gh)
+  | FCreateTopic ph name q => Some (ph, fun p => create_topic pr p name q)
+  | FDeleteTopic ph parent name => Some (ph, fun p => delete_topic p parent name)
+  | FCreateCft ph name related => Some (ph, fun p => create_cft pr p name related)
+  | FDeleteCft ph name => Some (ph, fun p => delete_cft p name)
+  | FCreateEp sd ph gh name q => Some (ph, fun p => create_endpoint pr sd p gh name q)
+  | FDeleteEp sd ph gh eh => Some (ph, fun p => delete_endpoint sd p gh eh)
+  | FDeleteContained ph => Some (ph, delete_contained)
+  | FGetPartQos ph => Some (ph, fun p => (p, RPQ (pa_q p)))
+  | FSetPartQos ph q => Some (ph, fun p => set_part_qos p q)
+  | FEnablePart ph => Some (ph, enable_part)
+  | FGetGroupQos sd ph gh => Some (ph, fun p => get_group_qos sd p gh)
+  | FSetGroupQos sd ph gh q => Some (ph, fun p => set_group_qos sd p gh q)
+  | FGetEpQos sd ph gh eh => Some (ph, fun p => get_ep_qos sd p gh eh)
+  | FSetEpQos sd ph gh eh q => Some (ph, fun p => set_ep_qos sd p gh eh q)
+  | FEnableEp sd ph gh eh => Some (ph, fun p => enable_ep sd p gh eh)
+  | FStatusEp sd ph gh eh => Some (ph, fun p => status_ep sd p gh eh)
+  | FGetTopicQos ph name => Some (ph, fun p => get_topic_qos p name)
+  | FSetTopicQos ph name q => Some (ph, fun p => set_topic_qos p name q)
+  | FEnableTopic ph name => Some (ph, fun p => enable_topic p name)
+  end.
+
+Lemma part_op_spec : forall pr o ph k f, part_op pr o = Some (ph, k) -> fstep pr f o = with_part f ph k.
+Proof. intros pr o ph k f H. destruct o; cbn in H; inversion H; subst; reflexivity. Qed.
+
+Lemma part_op_preserves : forall pr o ph k, part_op pr o = Some (ph, k) -> preserves k.
 Proof.
-  intros pr f o f' r Hinv Hs Ho.
-  destruct o; cbn [fstep] in Hs;
-    try (eapply with_part_step; [|exact Hinv|exact Hs|exact Ho]).
-  - (* factory qos *) inversion Hs; subst. destruct Hinv as (H1 & H2 & H3 & H4).
-    split; [|split; [discriminate|exact Ho]]. repeat split; auto; tauto.
-  - (* create participant *)
-    unfold create_part in Hs. inversion Hs; subst; clear Hs. destruct Hinv as (Hn & Hp & Hd & Hi).
-    unfold any_ovf in Ho. cbn [f_ovf f_parts] in Ho. apply orb_false_iff in Ho. destruct Ho as [Ho1 Ho2].
-    apply orb_false_iff in Ho1. destruct Ho1 as [Hfo Hmax]. apply Z.eqb_neq in Hmax.
-    rewrite existsb_app in Ho2. apply orb_false_iff in Ho2. destruct Ho2 as [Ho2 _].
-    assert (Hw : wrap_u32 (f_next f + 1) = f_next f + 1).
-    { unfold wrap_u32, two32, u32_max in *. rewrite Z.mod_small; lia. }
-    assert (Hp1 : forall qos, let p1 := (if f_auto f then fst (enable_part (new_part (part_handle (f_next f)) qos))
-                                         else new_part (part_handle (f_next f)) qos) in
-                  part_inv p1 /\ pa_h p1 = part_handle (f_next f)).
-    { intros qos. cbn zeta. destruct (f_auto f).
-      - destruct (ks_enable_part (new_part (part_handle (f_next f)) qos)) as [Hs _].
-        split; [eapply part_inv_skel; [exact Hs|apply part_inv_new; lia]|].
-        unfold skel in Hs. inversion Hs; auto.
-      - split; [apply part_inv_new; lia|reflexivity]. }
-    specialize (Hp1 (match q with Some x => x | None => f_defp f end)). cbn zeta in Hp1.
-    match type of Hp1 with part_inv ?x /\ _ => set (p1 := x) in * end.
-    destruct Hp1 as [Hp1 Hh1].
-    split; [|split; [discriminate|unfold any_ovf; rewrite Hfo, Ho2; reflexivity]].
-    unfold finv. cbn [f_next f_parts]. rewrite Hw.
-    match goal with |- context [f_parts f ++ [?x]] => change x with p1 end.
-    repeat split; try (unfold u32_max in *; lia).
-    + apply Forall_app; split; auto.
-    + rewrite map_app. cbn [map]. rewrite Hh1. apply nodup_app; auto.
-      * constructor; [intros []|constructor].
-      * intros x Hx [<-|[]]. apply in_map_iff in Hx. destruct Hx as (p & Hph & Hin).
-        rewrite Forall_forall in Hi. destruct (Hi p Hin) as (i & Hi1 & Hi2). rewrite Hi2 in Hph.
-        unfold part_handle in Hph. inversion Hph. lia.
-    + apply Forall_app; split.
-      * eapply Forall_impl; [|exact Hi]. intros p (i & Hi1 & Hi2). exists i; split; auto; lia.
-      * constructor; [|constructor]. exists (f_next f); split; auto; lia.
-  - (* delete participant *)
-    unfold delete_part in Hs. destruct (find_part f ph) as [p|] eqn:Hf.
-    2:{ inversion Hs; subst. split; [exact Hinv|split; [discriminate|exact Ho]]. }
-    destruct (negb (part_is_empty p)).
-    { inversion Hs; subst. split; [exact Hinv|split; [discriminate|exact Ho]]. }
-    inversion Hs; subst; clear Hs. destruct Hinv as (Hn & Hp & Hd & Hi).
-    unfold any_ovf in Ho. cbn [f_ovf f_parts] in Ho. apply orb_false_iff in Ho. destruct Ho as [Ho1 Ho2].
-    apply orb_false_iff in Ho1. destruct Ho1 as [Hfo Hpo].
-    split; [|split; [discriminate|]].
-    + unfold finv. cbn [f_next f_parts]. repeat split; try tauto.
-      * apply forall_rem_first; auto.
-      * apply nodup_map_rem_first; auto.
-      * apply forall_rem_first; auto.
-    + unfold any_ovf. rewrite Hfo. cbn. apply existsb_false_all. intros q Hq.
-      unfold find_part in Hf.
-      (* q is the removed one or still there *)
-      assert (Hcase : q = p \/ In q (rem_first (is_part ph) (f_parts f))).
-      { clear - Hf Hq. induction (f_parts f) as [|y t IH]; cbn in *; [contradiction|].
-        destruct (is_part ph y).
-        - inversion Hf; subst. destruct Hq; auto.
-        - destruct Hq as [<-|Hq]; [right; left; auto|]. destruct (IH Hf Hq); auto. right; right; auto. }
-      destruct Hcase as [->|Hq']; auto. eapply existsb_false_in; eauto.
+  intros pr o ph k H. destruct o; cbn in H; inversion H; subst; clear H.
   - apply pres_create_group.
   - apply pres_delete_group.
   - apply pres_create_topic.
@@ -188,126 +153,81 @@ Proof.
     intros p; unfold enable_topic; destruct (find_first (is_topic name) (pa_topics p)); discriminate.
 Qed.
 
-(* ------------------------------------------------------------------ the ghost flag only goes up *)
-Definition mono (k : part -> part * ret) : Prop := forall p, pa_ovf (fst (k p)) = false -> pa_ovf p = false.
+(* f_next / f_ovf only move at create_participant *)
+Definition is_create_part (o : fop) : bool := match o with FCreatePart _ => true | _ => false end.
+Lemma fstep_counter_other : forall pr f o f' r,
+    is_create_part o = false -> fstep pr f o = (f', r) -> f_next f' = f_next f /\ f_ovf f' = f_ovf f.
+Proof.
+  intros pr f o f' r Hc Hs. destruct (part_op pr o) as [[ph k]|] eqn:Hop.
+  - rewrite (part_op_spec _ _ _ _ f Hop) in Hs. unfold with_part in Hs.
+    destruct (find_part f ph); [destruct (k p)|]; inversion Hs; subst; auto.
+  - destruct o; cbn in Hop, Hc; try discriminate; cbn [fstep] in Hs.
+    + inversion Hs; subst; auto.
+    + unfold delete_part in Hs. destruct (find_part f ph); [destruct (negb (part_is_empty p))|];
+        inversion Hs; subst; auto.
+Qed.
 
-Lemma mono_keeps : forall k, keeps_skel k -> mono k.
-Proof. intros k H p Ho. destruct (H p) as [_ E]. congruence. Qed.
-
-Lemma mono_create_group : forall pr sd q, mono (fun p => create_group pr sd p q).
+Lemma fstep_inv : forall pr f o f' r,
+    finv f -> fstep pr f o = (f', r) -> any_ovf f' = false ->
+    finv f' /\ r <> RPanic /\ any_ovf f = false.
 Proof.
-  intros pr sd q p H. unfold create_group in H.
-  destruct (panics pr (bump 255 (gcounter sd p))); cbn [fst] in H;
-    [destruct sd; cbn in H|rewrite gs_ovf in H]; apply orb_false_iff in H; tauto.
-Qed.
-Lemma mono_delete_group : forall sd parent gh, mono (fun p => delete_group sd p parent gh).
-Proof.
-  intros sd parent gh p H. unfold delete_group in H.
-  destruct (negb (heqb parent (pa_h p))); auto.
-  destruct (find_first (is_group gh) (groups sd p)); auto.
-  destruct (negb (is_nil (g_eps g))); auto. cbn [fst] in H. rewrite ps_ovf in H; auto.
-Qed.
-Lemma mono_create_topic : forall pr name q, mono (fun p => create_topic pr p name q).
-Proof.
-  intros pr name q p H. unfold create_topic in H.
-  destruct (existsb (is_topic name) (pa_topics p)); auto.
-  destruct (panics pr (bump 65535 (pa_tc p))).
-  - cbn in H. apply orb_false_iff in H; tauto.
-  - match type of H with pa_ovf (fst (if ?en then _ else _)) = _ =>
-      destruct (create_topic_tail
-                  (set_topics (set_tcounter p (bump 65535 (pa_tc p)))
-                     (pa_topics (set_tcounter p (bump 65535 (pa_tc p))) ++
-                      [mkTp (child_handle (pa_h p) 0 (lo8 (pa_tc p)) (hi8 (pa_tc p)) KIND_TOPIC) name false
-                            (match q with Some x => x | None => pa_deftopic p end)]))
-                  name (child_handle (pa_h p) 0 (lo8 (pa_tc p)) (hi8 (pa_tc p)) KIND_TOPIC) en)
-        as (_ & Hov & _) end.
-    cbn zeta in Hov. rewrite Hov in H. cbn in H. apply orb_false_iff in H; tauto.
-Qed.
-Lemma mono_delete_topic : forall parent name, mono (fun p => delete_topic p parent name).
-Proof.
-  intros parent name p H. unfold delete_topic in H.
-  destruct (negb (heqb (pa_h p) parent)); auto.
-  destruct (find_first (is_topic name) (pa_topics p)); auto.
-  destruct (existsb (uses_topic (t_name t)) (pa_pubs p)); auto.
-  destruct (existsb (uses_topic (t_name t)) (pa_subs p)); auto.
-Qed.
-Lemma mono_create_cft : forall pr name related, mono (fun p => create_cft pr p name related).
-Proof.
-  intros pr name related p H. unfold create_cft in H.
-  destruct (negb (existsb (is_topic related) (pa_topics p))); auto.
-  destruct (panics pr (bump 65535 (pa_tc p))); cbn in H; apply orb_false_iff in H; tauto.
-Qed.
-Lemma mono_create_endpoint : forall pr sd gh name q, mono (fun p => create_endpoint pr sd p gh name q).
-Proof.
-  intros pr sd gh name q p H. destruct (pa_ovf p) eqn:Hp; auto.
-  assert (E : pa_ovf (fst (create_endpoint pr sd p gh name q)) = true); [|cbn beta in H; congruence].
-  clear H. unfold create_endpoint, push_endpoint.
-  repeat match goal with
-         | |- context [match ?x with _ => _ end] => destruct x
-         end; cbn [fst]; rewrite ?ps_ovf, ?es0_ovf, ?Hp; reflexivity.
-Qed.
-Lemma mono_delete_endpoint : forall sd gh eh, mono (fun p => delete_endpoint sd p gh eh).
-Proof.
-  intros sd gh eh p H. unfold delete_endpoint in H.
-  destruct (find_first (is_group gh) (groups sd p)); auto.
-  destruct (find_first (is_ep eh) (g_eps g)); auto. cbn [fst] in H. rewrite ps_ovf in H; auto.
-Qed.
-Lemma mono_delete_contained : mono delete_contained.
-Proof. intros p H. exact H. Qed.
-
-Lemma with_part_mono : forall f ph k f' r,
-    mono k -> with_part f ph k = (f', r) -> any_ovf f' = false -> any_ovf f = false.
-Proof.
-  intros f ph k f' r Hk Hw Ho. unfold with_part in Hw.
-  destruct (find_part f ph) as [p|] eqn:Hf; [|inversion Hw; subst; auto].
-  destruct (k p) as [p' r'] eqn:Hkp. inversion Hw; subst; clear Hw.
-  unfold any_ovf in *. cbn [f_ovf f_parts set_parts] in Ho. apply orb_false_iff in Ho. destruct Ho as [Hfo Hpo].
-  rewrite Hfo. cbn. apply existsb_false_all. intros q Hq. unfold find_part in Hf.
-  destruct (in_upd_first_cases (is_part ph) (fun _ => p') _ p q Hf Hq) as [->|Hq'].
-  - apply Hk. rewrite Hkp. cbn. eapply existsb_false_in; [exact Hpo|]. eapply in_upd_first_new; eauto.
-  - eapply existsb_false_in; eauto.
+  intros pr f o f' r Hinv Hs Ho.
+  destruct (part_op pr o) as [[ph k]|] eqn:Hop.
+  - rewrite (part_op_spec _ _ _ _ f Hop) in Hs.
+    destruct (with_part_step f ph k f' r (part_op_preserves _ _ _ _ Hop) Hinv Hs) as (H1 & H2 & H3).
+    split; [exact H1|split; [exact H2|congruence]].
+  - destruct o; cbn in Hop; try discriminate; cbn [fstep] in Hs.
+    + (* factory qos *) inversion Hs; subst. destruct Hinv as (H1 & H2 & H3 & H4).
+      split; [|split; [discriminate|exact Ho]]. repeat split; auto; tauto.
+    + (* create participant *)
+      unfold create_part in Hs. inversion Hs; subst; clear Hs. destruct Hinv as (Hn & Hp & Hd & Hi).
+      unfold any_ovf in *. cbn [f_ovf f_parts] in Ho. apply orb_false_iff in Ho. destruct Ho as [Hfo Hmax].
+      apply Z.eqb_neq in Hmax.
+      assert (Hw : wrap_u32 (f_next f + 1) = f_next f + 1).
+      { unfold wrap_u32, two32, u32_max in *. rewrite Z.mod_small; lia. }
+      assert (Hp1 : forall qos, let p1 := (if f_auto f then fst (enable_part (new_part (part_handle (f_next f)) qos))
+                                           else new_part (part_handle (f_next f)) qos) in
+                    part_inv p1 /\ pa_h p1 = part_handle (f_next f)).
+      { intros qos. cbn zeta. destruct (f_auto f).
+        - pose proof (ks_enable_part (new_part (part_handle (f_next f)) qos)) as Hs.
+          split; [eapply part_inv_skel; [exact Hs|apply part_inv_new; lia]|].
+          unfold skel in Hs. inversion Hs; auto.
+        - split; [apply part_inv_new; lia|reflexivity]. }
+      specialize (Hp1 (match q with Some x => x | None => f_defp f end)). cbn zeta in Hp1.
+      match type of Hp1 with part_inv ?x /\ _ => set (p1 := x) in * end.
+      destruct Hp1 as [Hp1 Hh1].
+      split; [|split; [discriminate|exact Hfo]].
+      unfold finv. cbn [f_next f_parts]. rewrite Hw.
+      match goal with |- context [f_parts f ++ [?x]] => change x with p1 end.
+      repeat split; try (unfold u32_max in *; lia).
+      * apply Forall_app; split; auto.
+      * rewrite map_app. cbn [map]. rewrite Hh1. apply nodup_app; auto.
+        -- constructor; [intros []|constructor].
+        -- intros x Hx [<-|[]]. apply in_map_iff in Hx. destruct Hx as (p & Hph & Hin).
+           rewrite Forall_forall in Hi. destruct (Hi p Hin) as (i & Hi1 & Hi2). rewrite Hi2 in Hph.
+           unfold part_handle in Hph. inversion Hph. lia.
+      * apply Forall_app; split.
+        -- eapply Forall_impl; [|exact Hi]. intros p (i & Hi1 & Hi2). exists i; split; auto; lia.
+        -- constructor; [|constructor]. exists (f_next f); split; auto; lia.
+    + (* delete participant *)
+      unfold delete_part in Hs. destruct (find_part f ph) as [p|] eqn:Hf.
+      2:{ inversion Hs; subst. split; [exact Hinv|split; [discriminate|exact Ho]]. }
+      destruct (negb (part_is_empty p)).
+      { inversion Hs; subst. split; [exact Hinv|split; [discriminate|exact Ho]]. }
+      inversion Hs; subst; clear Hs. destruct Hinv as (Hn & Hp & Hd & Hi).
+      split; [|split; [discriminate|exact Ho]].
+      unfold finv. cbn [f_next f_parts]. repeat split; try tauto.
+      * apply forall_rem_first; auto.
+      * apply nodup_map_rem_first; auto.
+      * apply forall_rem_first; auto.
 Qed.
 
 Lemma fstep_ovf_mono : forall pr f o f' r, fstep pr f o = (f', r) -> any_ovf f' = false -> any_ovf f = false.
 Proof.
-  intros pr f o f' r Hs Ho. destruct o; cbn [fstep] in Hs;
-    try (eapply with_part_mono; [|exact Hs|exact Ho]).
-  - inversion Hs; subst. exact Ho.
-  - unfold create_part in Hs. inversion Hs; subst; clear Hs. unfold any_ovf in *. cbn [f_ovf f_parts] in Ho.
-    apply orb_false_iff in Ho. destruct Ho as [Ho1 Ho2]. apply orb_false_iff in Ho1. destruct Ho1 as [Ho1 _].
-    rewrite existsb_app in Ho2. apply orb_false_iff in Ho2. destruct Ho2 as [Ho2 _]. rewrite Ho1, Ho2. reflexivity.
-  - unfold delete_part in Hs. destruct (find_part f ph) as [p|] eqn:Hf; [|inversion Hs; subst; auto].
-    destruct (negb (part_is_empty p)); [inversion Hs; subst; auto|].
-    inversion Hs; subst; clear Hs. unfold any_ovf in *. cbn [f_ovf f_parts] in Ho.
-    apply orb_false_iff in Ho. destruct Ho as [Ho1 Ho2]. apply orb_false_iff in Ho1. destruct Ho1 as [Hfo Hp].
-    rewrite Hfo. cbn. apply existsb_false_all. intros x Hx. unfold find_part in Hf.
-    assert (Hcase : x = p \/ In x (rem_first (is_part ph) (f_parts f))).
-    { clear - Hf Hx. induction (f_parts f) as [|y t IH]; cbn in *; [contradiction|].
-      destruct (is_part ph y).
-      - inversion Hf; subst. destruct Hx; auto.
-      - destruct Hx as [<-|Hx]; [right; left; auto|]. destruct (IH Hf Hx); auto. right; right; auto. }
-    destruct Hcase as [->|Hx']; auto. eapply existsb_false_in; eauto.
-  - apply mono_create_group.
-  - apply mono_delete_group.
-  - apply mono_create_topic.
-  - apply mono_delete_topic.
-  - apply mono_create_cft.
-  - apply mono_keeps, ks_delete_cft.
-  - apply mono_create_endpoint.
-  - apply mono_delete_endpoint.
-  - apply mono_delete_contained.
-  - apply mono_keeps, ks_get_part_qos.
-  - apply mono_keeps, ks_set_part_qos.
-  - apply mono_keeps, ks_enable_part.
-  - apply mono_keeps, ks_get_group_qos.
-  - apply mono_keeps, ks_set_group_qos.
-  - apply mono_keeps, ks_get_ep_qos.
-  - apply mono_keeps, ks_set_ep_qos.
-  - apply mono_keeps, ks_enable_ep.
-  - apply mono_keeps, ks_status_ep.
-  - apply mono_keeps, ks_get_topic_qos.
-  - apply mono_keeps, ks_set_topic_qos.
-  - apply mono_keeps, ks_enable_topic.
+  intros pr f o f' r Hs Ho. destruct (is_create_part o) eqn:Hc.
+  - destruct o; try discriminate. cbn [fstep] in Hs. unfold create_part in Hs. inversion Hs; subst.
+    unfold any_ovf in *. cbn [f_ovf] in Ho. apply orb_false_iff in Ho. tauto.
+  - destruct (fstep_counter_other pr f o f' r Hc Hs) as [_ E]. unfold any_ovf in *. congruence.
 Qed.
 
 (* ------------------------------------------------------------------ histories *)
@@ -342,6 +262,31 @@ Proof.
       destruct (fstep_inv pr f o f1 r Hinv Hs Hf1) as (Hinv1 & Hnp & _).
       destruct (IH f1 Hinv1 Ho) as [H1 H2]. split; auto.
       intros [E|E]; [congruence|contradiction].
+Qed.
+
+(* fewer than 2^32 create_participant mails: the participant instance number never wraps *)
+Definition n_create_part (ops : list fop) : Z := Z.of_nat (length (filter is_create_part ops)).
+Lemma frun_no_wrap : forall pr ops f,
+    f_ovf f = false -> 0 <= f_next f -> f_next f + n_create_part ops <= u32_max ->
+    any_ovf (fst (frun pr f ops)) = false.
+Proof.
+  intros pr ops. induction ops as [|o t IH]; intros f Hf H0 Hn; [exact Hf|].
+  destruct (fstep pr f o) as [f1 r] eqn:Hs. rewrite (frun_cons _ _ _ _ _ _ Hs).
+  unfold n_create_part in *. cbn [filter] in Hn.
+  destruct (is_create_part o) eqn:Hc.
+  - cbn [length] in Hn. rewrite Nat2Z.inj_succ in Hn.
+    destruct o; try discriminate. cbn [fstep] in Hs. unfold create_part in Hs. inversion Hs; subst; clear Hs.
+    assert (Hne : (f_next f =? u32_max) = false) by (apply Z.eqb_neq; lia).
+    assert (Hw : wrap_u32 (f_next f + 1) = f_next f + 1).
+    { unfold wrap_u32, two32, u32_max in *. rewrite Z.mod_small; lia. }
+    cbn [is_rpanic fst]. apply IH; cbn [f_ovf f_next].
+    + rewrite Hf, Hne. reflexivity.
+    + rewrite Hw. lia.
+    + rewrite Hw. lia.
+  - destruct (fstep_counter_other pr f o f1 r Hc Hs) as [E1 E2].
+    destruct (is_rpanic r); cbn [fst].
+    + unfold any_ovf. congruence.
+    + apply IH; [congruence|rewrite E1; exact H0|rewrite E1; exact Hn].
 Qed.
 
 (* ------------------------------------------------------------------ from the invariant to distinct handles *)
@@ -509,33 +454,49 @@ Proof.
       apply in_flat_map in Hh'; destruct Hh' as (g & Hg & Hx); apply in_flat_map; exists g; split; auto; right; auto.
 Qed.
 
-(* ------------------------------------------------------------------ the two theorems and their refutations *)
+(* ------------------------------------------------------------------ the theorem *)
 Theorem no_panic_and_distinct : forall pr ops,
+    n_create_part ops <= u32_max ->
     let f := fst (frun pr init_factory ops) in
-    any_ovf f = false ->
     ~ In RPanic (snd (frun pr init_factory ops)) /\ NoDup (all_handles f) /\ NoDup (all_guids f).
 Proof.
-  intros pr ops f Ho. destruct (frun_inv pr ops init_factory finv_init Ho) as [Hi Hn].
+  intros pr ops Hn f.
+  assert (Ho : any_ovf f = false) by (apply frun_no_wrap; cbn; auto; lia).
+  destruct (frun_inv pr ops init_factory finv_init Ho) as [Hi Hnp].
   split; auto. split; [apply all_handles_nodup|apply all_guids_nodup]; auto.
 Qed.
 
-(* Debug: the 256th publisher panics the worker *)
-Fixpoint repeat_op (o : fop) (n : nat) : list fop := match n with O => [] | S k => o :: repeat_op o k end.
-Definition pubs_256 : list fop := FCreatePart None :: repeat_op (FCreateGroup SPub (part_handle 0) None) 256.
-Lemma debug_panics_at_256th_publisher :
-  nth 256 (snd (frun Debug init_factory pubs_256)) RUnit = RPanic /\
-  length (snd (frun Debug init_factory pubs_256)) = 257%nat.
-Proof. vm_compute. split; reflexivity. Qed.
-
-(* Release: the 257th publisher gets the handle of the first one, which is still alive *)
-Definition pubs_257 : list fop := FCreatePart None :: repeat_op (FCreateGroup SPub (part_handle 0) None) 257.
-Lemma release_duplicates_handle_at_257th_publisher :
-  let r := frun Release init_factory pubs_257 in
-  ~ In RPanic (snd r) /\ nth 1 (snd r) RUnit = nth 257 (snd r) RUnit /\
-  nth 1 (snd r) RUnit = RHandle (mkH 0 0 0 0 8) /\ ~ NoDup (all_handles (fst r)).
+(* a creation whose counter is exhausted returns OutOfResources and changes nothing *)
+Lemma exhausted_group_counter : forall pr sd p q,
+    gcounter sd p = 255 -> create_group pr sd p q = (p, RErr E_OUT_OF_RESOURCES).
+Proof. intros pr sd p q H. unfold create_group. rewrite H. reflexivity. Qed.
+Lemma exhausted_topic_counter : forall pr p name q,
+    pa_tc p = 65535 ->
+    fst (create_topic pr p name q) = p /\ exists c, snd (create_topic pr p name q) = RErr c.
 Proof.
-  vm_compute. split; [|split; [reflexivity|split; [reflexivity|]]].
-  - intros H. repeat (destruct H as [H|H]; [discriminate|]). exact H.
-  - intros H. inversion H as [|? ? _ H1]; subst. inversion H1 as [|? ? Hn _]; subst. apply Hn.
-    do 255 right. left. reflexivity.
+  intros pr p name q H. unfold create_topic. rewrite H.
+  replace (next_id 65535 65535) with (@None Z) by reflexivity.
+  destruct (existsb (is_topic name) (pa_topics p)); [split; [reflexivity|eexists; reflexivity]|].
+  destruct q as [x|]; [destruct (is_consistent KTopic x)|]; split; try reflexivity; eexists; reflexivity.
 Qed.
+Lemma exhausted_endpoint_counter : forall pr sd p gh name q r,
+    ecounter sd p = 65535 -> snd (create_endpoint pr sd p gh name q) = r ->
+    exists c, r = RErr c /\ fst (create_endpoint pr sd p gh name q) = p.
+Proof.
+  intros pr sd p gh name q r H Hr. subst r. unfold create_endpoint. rewrite H.
+  replace (next_id 65535 65535) with (@None Z) by reflexivity.
+  destruct (lookup_topic sd p name); [|eexists; split; reflexivity].
+  destruct (find_first (is_group gh) (groups sd p)); [|eexists; split; reflexivity].
+  destruct sd; cbn [ekind_of].
+  - eexists; split; reflexivity.
+  - destruct q as [x|]; [destruct (is_consistent KReader x)|]; eexists; split; reflexivity.
+Qed.
+
+(* regression of b2cf990 on the model: the 256th and 257th publisher are refused, the first 255 keep their handles *)
+Fixpoint repeat_op (o : fop) (n : nat) : list fop := match n with O => [] | S k => o :: repeat_op o k end.
+Lemma publishers_256_and_257_are_refused : forall pr,
+  let r := frun pr init_factory (FCreatePart None :: repeat_op (FCreateGroup SPub (part_handle 0) None) 257) in
+  nth 255 (snd r) RUnit = RHandle (mkH 0 254 0 0 8) /\
+  nth 256 (snd r) RUnit = RErr E_OUT_OF_RESOURCES /\ nth 257 (snd r) RUnit = RErr E_OUT_OF_RESOURCES /\
+  length (all_handles (fst r)) = 256%nat.
+Proof. intros [|]; vm_compute; repeat split; reflexivity. Qed.
